@@ -1464,8 +1464,9 @@ evbuffer_pullup(struct evbuffer *buf, ev_ssize_t size)
 		tmp->off = size;
 		size -= old_off;
 		chain = chain->next;
-	} else if (chain->buffer_len - chain->misalign >= (size_t)size) {
-		/* already have enough space in the first chain */
+	} else if (CHAIN_SPACE_LEN(chain) >= (size_t)size - chain->off) {
+		/* already have enough space in the first chain (a read-only
+		 * chain has none: its memory may be shared) */
 		size_t old_off = chain->off;
 		buffer = chain->buffer + chain->misalign + chain->off;
 		tmp = chain;
